@@ -67,7 +67,8 @@ class Sched(object):
             b = st.get("block")
             if b is None or b[0] == "sleep":
                 r.append(n)
-            elif b[0] == "join" and self.threads[b[1]]["status"] == "done":
+            elif b[0] == "join" and (self.threads[b[1]]["status"] == "done" or (len(b) > 2 and b[2] is not None)):
+                # join(timeout) may also return because its time is up: a candidate like a sleeper
                 r.append(n)
             elif b[0] == "lock" and (b[1].owner is None or b[1].owner == n):
                 r.append(n)
@@ -90,17 +91,28 @@ class Sched(object):
         prev = self.current
         # default = what a fair scheduler without pre-emption does: keep running the current thread;
         # if it blocked, run a thread that is not sleeping; only if all sleep, wake the earliest
-        awake = [n for n in r if self.threads[n].get("block") is None or self.threads[n]["block"][0] != "sleep"]
+        def asleep(n):
+            b = self.threads[n].get("block")
+            if b is None:
+                return False
+            if b[0] == "sleep":
+                return True
+            return b[0] == "join" and self.threads[b[1]]["status"] != "done"  # only a join whose time-out could end it
+
+        awake = [n for n in r if not asleep(n)]
         if prev in awake:
             default = prev
         elif awake:
             default = awake[0]
         else:
-            default = min(r, key=lambda n: (self.threads[n]["block"][1], n))
+            default = min(r, key=lambda n: (self.threads[n]["block"][1] if self.threads[n]["block"][0] == "sleep" else self.threads[n]["block"][2], n))
         n = self.choose(r, self, r.index(default))
         b = self.threads[n].get("block")
         if b and b[0] == "sleep":
             self.now = max(self.now, b[1])
+            self.threads[n]["block"] = None
+        elif b and b[0] == "join" and self.threads[b[1]]["status"] != "done":
+            self.now = max(self.now, b[2])  # the join timed out
             self.threads[n]["block"] = None
         self.choices.append((len(r), r.index(n), n != default))
         self.trace.append((n, self.threads[n]["label"]))
@@ -152,7 +164,7 @@ class ShimThread(object):
 
     def join(self, timeout=None):
         SCHED.join_requested_at = SCHED.steps
-        SCHED.point("join", ("join", self.name))
+        SCHED.point("join", ("join", self.name, None if timeout is None else SCHED.now + max(timeout, 0)))
         self.joined = True
 
     def is_alive(self):
